@@ -232,7 +232,8 @@ func runC38(c *Ctx) error {
 			return pool.OperationHashes(ctx, h, 5, nil)
 		}, fp, func() (base.BlockMap, bool, error) { return lastBM, true, nil })
 		got := map[string]map[string]bool{}
-		var toks []string
+		var toks, mtoks, mouts []string // mtoks/mouts: the same history for the Lean model of the maker
+		mids := map[string]int{}
 		for st := 0; st < 4+c.Intn(8); st++ {
 			h, r, pv := 30+c.Intn(3), c.Intn(2), c.Intn(2)
 			point := base.NewPoint(base.Height(h), base.Round(uint64(r)))
@@ -248,9 +249,20 @@ func runC38(c *Ctx) error {
 			}
 			tok := fmt.Sprintf("%s:%d.%d.%d%s", kind, h, r, pv, map[bool]string{true: "!", false: ""}[fp.fail])
 			toks = append(toks, tok)
+			mtoks = append(mtoks, fmt.Sprintf("%s:%d.%d.0.%d%s", kind, h, r, pv, map[bool]string{true: "!", false: ""}[fp.fail]))
 			time.Sleep(2 * time.Millisecond) // a proposal made again gets another signing time
 			if err != nil || pr == nil {
+				mouts = append(mouts, "err")
 				continue
+			}
+			{
+				sig := string(pr.Signs()[0].Signature())
+				id, ok := mids[sig]
+				if !ok {
+					id = len(mids) + 1
+					mids[sig] = id
+				}
+				mouts = append(mouts, fmt.Sprint(id))
 			}
 			key := fmt.Sprintf("%d.%d.%d", h, r, pv)
 			if got[key] == nil {
@@ -258,7 +270,7 @@ func runC38(c *Ctx) error {
 			}
 			got[key][string(pr.Signs()[0].Signature())] = true
 		}
-		c.Eval(len(toks))
+		c.Case("seq "+strings.Join(mtoks, " "), strings.Join(mouts, " "))
 		c.Count("failing-pool-histories", "run")
 		for key, sigs := range got {
 			if len(sigs) > 1 {
